@@ -27,6 +27,8 @@ EVENT_LINES = [
     '0,0,"bg.jpg",0,0', 'Background,0,bg2.png', '0,0,"C:\\\\dir\\\\bg.jpg"', '0,0,', '0,0', '0', '',
     'Video,0,"v.MP4"', '1,0,vid.avi', '1,0,pic.png', '1,0,ab', '1,0,abc', '1,0,"x.Mp4"', '1,0,x.m4v', '1,0,ビデオ.mp4',
     '1,0,é', '1,0,aé', '1,0,ビ', '1,0,x.mpg // c', '1,0,"a.flv', 'Video,0,file.wmvx',
+    # names whose last three BYTES start inside a multi-byte character
+    'Video,0,"ムービーv2"', '1,0,vidéos', '1,0,clip😀', '1,0,x😀y', 'Video,0,"日本語"', '1,0,ab\u00e9',
     '4,Background,Centre,"sb.png",320,240', 'Sprite,a,b', 'Sprite,a,b,', '4,0,0,second.png', '4,x,y,"q\\\\r.png"',
     '2,100,200', '2,200,100', 'Break,1e3,nan', '2,abc,5', '2,5,abc', '2,1', '2, 10 , 20 ', '2,-0,0', '2,0,-0', '2,2147483648,5',
     '2,5,2147483648', '2,inf,5', '2,1,2,3', '2,100,200 // brk',
